@@ -486,7 +486,9 @@ impl WriteSource for pr::Stmt {
                 pr::VarDefKind::Into | pr::VarDefKind::Main => {
                     let val = var_def.value.as_ref().unwrap();
                     match &val.kind {
-                        pr::ExprKind::Pipeline(pipeline) => {
+                        // (an aliased pipeline `x = (a | b)` is written as one aliased expression: written line by
+                        // line its alias would be lost)
+                        pr::ExprKind::Pipeline(pipeline) if val.alias.is_none() => {
                             for expr in &pipeline.exprs {
                                 r += &expr.write(opt.clone())?;
                                 r += "\n";
